@@ -59,6 +59,10 @@ func runC12(c *mon.Case) {
 		runC12BlockSend(c)
 		return
 	}
+	if c.Idx%16 == 14 {
+		runC12SelfClose(c)
+		return
+	}
 	if c.Idx%240 == 101 {
 		runC12MailboxBackpressure(c)
 		return
@@ -766,4 +770,119 @@ func runC12Mailbox(c *mon.Case) {
 	}
 	c.Shard.Count("mailbox_sessions_censused", 1)
 	c.Shard.Eval(fmt.Sprintf("M|%v", r.rep["script"]))
+}
+
+// runC12SelfClose: the connection closes itself - its keepalive gives up because
+// nothing arrives any more (a one-way outage: what it sends still reaches the
+// peer), or one write of its transport fails with a transient error - while the
+// peer, which has no keepalive of its own, is blocked in Recv. The transport
+// towards the peer works, so the peer must be told by a FIN and its Recv must
+// fail instead of hanging. Virtual time.
+func runC12SelfClose(c *mon.Case) {
+	rng := rand.New(rand.NewSource(c.Seed))
+	kaClient := rng.Intn(2) == 0
+	pp := [][2]time.Duration{{5 * time.Second, 3 * time.Second}, {7 * time.Second, 3 * time.Second}, {time.Second, time.Second}, {300 * time.Millisecond, 200 * time.Millisecond}}[rng.Intn(4)]
+	conf := eng.GBNConf{N: []uint8{1, 2, 5, 20, 100}[rng.Intn(5)], Lat: time.Duration(rng.Intn(40)) * time.Millisecond}
+	if rng.Intn(2) == 0 {
+		conf.Static, conf.Resend = true, []time.Duration{200 * time.Millisecond, time.Second, 3 * time.Second}[rng.Intn(3)]
+	}
+	if kaClient {
+		conf.PingC, conf.PongC = pp[0], pp[1]
+	} else {
+		conf.PingS, conf.PongS = pp[0], pp[1]
+	}
+	cause := []string{"one-way-outage", "write-error"}[rng.Intn(2)]
+	backlog := rng.Intn(3)
+	wait := time.Duration(rng.Int63n(int64(2*pp[0]) + 1))
+	rep := map[string]any{"kind": "self-close", "conf": conf.String(), "cause": cause, "keepalive_side": map[bool]string{true: "client", false: "server"}[kaClient], "messages_queued_at_the_fault": backlog}
+	synctest.Test(c.T, func(t *testing.T) {
+		ctx, cancel := context.WithCancel(context.Background())
+		defer cancel()
+		p := eng.NewPair(conf)
+		ce, se := p.Connect(ctx)
+		if ce != nil || se != nil {
+			c.Shard.Violate("handshake-failed-clean-link", fmt.Sprintf("client=%v server=%v", ce, se), rep)
+			p.CloseAll()
+			return
+		}
+		ka, other := p.C, p.S
+		kaOut, kaIn := p.C2S, p.S2C
+		if !kaClient {
+			ka, other = p.S, p.C
+			kaOut, kaIn = p.S2C, p.C2S
+		}
+		// the peer sits in Recv
+		recvErr := make(chan error, 1)
+		go func() {
+			for {
+				if _, err := other.Recv(); err != nil {
+					recvErr <- err
+					return
+				}
+			}
+		}()
+		for i := 0; i < 3; i++ {
+			if err := ka.Send(eng.MsgBytes('a', i, 30)); err != nil {
+				c.Shard.Inconc("self-close: warm-up send failed: " + err.Error())
+				p.CloseAll()
+				return
+			}
+		}
+		time.Sleep(4*conf.Lat + 20*time.Millisecond + wait)
+		select {
+		case <-ka.VerifDone():
+			c.Shard.Inconc("self-close: the endpoint closed before the fault was injected")
+			p.CloseAll()
+			return
+		default:
+		}
+		switch cause {
+		case "one-way-outage":
+			kaIn.SetBlackhole(true, true)
+		default:
+			kaOut.FailNextSends(1, fmt.Errorf("write: transient transport error (injected)"))
+			if backlog == 0 {
+				backlog = 1 // something has to be written
+			}
+		}
+		go func() {
+			for i := 0; i < backlog; i++ {
+				if ka.Send(eng.MsgBytes('a', 3+i, 30)) != nil {
+					return
+				}
+			}
+		}()
+		// The endpoint closes itself (how fast is C13's subject; here a
+		// connection that stays open is simply not a case of this slice).
+		select {
+		case <-ka.VerifDone():
+		case <-time.After(pp[0] + pp[1] + 2*time.Minute):
+			c.Shard.Count("self_close_cases_without_a_close", 1)
+			c.Shard.Eval("")
+			cancel()
+			p.CloseAll()
+			return
+		}
+		tClose := time.Now()
+		told := false
+		select {
+		case <-recvErr:
+			told = true
+			c.Shard.Max("max_peer_told_after_self_close_ms", time.Since(tClose).Milliseconds())
+		case <-time.After(10*time.Second + 4*conf.Lat):
+		}
+		fins := 0
+		for _, e := range kaOut.Log() {
+			if e.P.Type == sim.TFin {
+				fins++
+			}
+		}
+		if !told {
+			c.Shard.Violate("peer-not-told|self-close", fmt.Sprintf("the %s closed itself (%s) while its transport towards the peer worked; 10 s later the peer's blocked Recv has not failed (%d FIN packets were put on the wire) [%s]", rep["keepalive_side"], cause, fins, conf.String()), rep)
+		}
+		c.Shard.Count("self_close_cases", 1)
+		c.Shard.Eval(fmt.Sprintf("selfclose|%s|%v|%v|%d", cause, kaClient, pp[0], conf.N))
+		cancel()
+		p.CloseAll()
+	})
 }
